@@ -67,7 +67,7 @@ Section Ordered.
                               match alookup (o_pd st) p with
                               | None => walk_up (fuel_of c) len c s 0%Q
                               | Some pdv => match alookup (o_pp st) p with
-                                            | Some ppv => Ok (ppv + (pdv - ppv) * f)%Q
+                                            | Some ppv => Ok (Qred (ppv + (pdv - ppv) * f))
                                             | None => Err EKey
                                             end
                               end
@@ -75,8 +75,8 @@ Section Ordered.
     { destruct (sparent s) as [[p f]|] eqn:Ep.
       - pose proof (Hinv p) as Hp. destruct (alookup (o_pd st) p) as [pdv|] eqn:Epd.
         + destruct (alookup (o_pp st) p) as [ppv|] eqn:Epp; cbn iota in Hp; [|contradiction].
-          destruct Hp as [-> Hd]. exists (ppv + (ppv + len p - ppv) * f)%Q. split; auto.
-          eapply DR_eq; [eapply DR_kid; eauto|]. ring.
+          destruct Hp as [-> Hd]. exists (Qred (ppv + (ppv + len p - ppv) * f)). split; auto.
+          eapply DR_eq; [eapply DR_kid; eauto|]. rewrite Qred_correct. ring.
         + apply walk_up_spec; auto.
       - exists 0%Q. split; auto. now apply DR_root. }
     destruct Hpp as [v [Hv Hdv]]. rewrite Hv. cbn [bind].
